@@ -288,6 +288,19 @@ type LInner2 struct {
 
 type LEmpty struct{}
 
+// LDeep / LDeep2 nest a struct inside a struct (three-segment destination paths).
+type LDeep struct {
+	In LInner
+	X  int
+	N  LInt
+}
+
+type LDeep2 struct {
+	In LInner2
+	X  int64
+	N  int
+}
+
 // LForeign is a local type whose underlying struct (and its unexported member) comes from package ext.
 type LForeign ext.Inner
 
@@ -401,6 +414,8 @@ var Alphabet = []TypeAtom{
 	{"oh.Rec", "", "struct-layout-same-package-name"},
 	{"oh.Rec2", "", "struct-layout-same-package-name"},
 	{"LForeign", "", "struct-local-foreign-underlying"},
+	{"LDeep", "", "struct-local-deep"},
+	{"LDeep2", "", "struct-local-deep"},
 	{"LInnerG", "", "struct-local-getter-names"},
 	{"ext.InnerG", "InnerG", "struct-imported-getter-names"},
 }
